@@ -25,6 +25,9 @@ RowOK(r) ==
                   ELSE IF r.cname = "Set-Cookie" THEN (IF r.on = "auth+call" THEN meta ELSE {"v1", "v2"}) \subseteq got
                   ELSE Hdr(r, r.cname) = <<"v1", "v2">>
                /\ (r.body # "" => Hdr(r, "Content-Type") = <<"application/json; charset=utf-8">>)
+      [] r.kind = "hdrdup" ->
+            \* two spellings of one header name in one meta object: both values reach the response (in either order)
+            r.status = 200 /\ {"d1", "d2"} \subseteq Range(Hdr(r, r.cname))
       [] r.kind = "cors" ->
             \* "" = no Origin header; "EMPTY" = an Origin header with an empty value (not a listed origin)
             LET ok == r.origin = "" \/ r.origin = "null" \/ r.lorigin \in {"http://a", "http://c"}
